@@ -29,7 +29,7 @@ RULE = ("part A enumerates (session state in {NOT SELECTED, SELECTED}) x (11 inb
         "also with a slow application 'disconnected' handler while the peer reconnects at once) with seeded yield injection, "
         "half of them with the disabling thread slowed to milliseconds per yield, plus forced schedules (disable() held at its "
         "stop-flag statement until the listen/connect thread has ended); distinct by (state, stream, offset, follow-up, segmentation | scenario, seed); "
-        "non-trivial when the cut falls inside a frame or a disable races with connection set-up; plus: a cut after a burst of 1100 Linktest.req; peers that connect and leave at once; forced schedules for the race between the end of a connection (restart of the listen / connect thread) and disable(); a connection listener that sends from within on_connected and waits for the peer's answer (both roles, peer staying or leaving at once, two visits)")
+        "non-trivial when the cut falls inside a frame or a disable races with connection set-up; plus: a cut after a burst of 1100 Linktest.req; peers that connect and leave at once; forced schedules for the race between the end of a connection (restart of the listen / connect thread) and disable(); a connection listener that sends from within on_connected and waits for the peer's answer (both roles, peer staying or leaving at once, two visits); part A: in a tenth of the cases the peer stalls first and the timers the endpoint armed for the connection expire (virtual time); disable() called from within the message_received handler (in-memory and real TCP), then enable, select, deliver")
 ASSUMPTIONS = ["the in-memory connection reproduces TcpConnection's callback contract (see lib/pipe.py)",
                "a close sequence that has not finished after the watchdog is a violation only if every thread is parked in the "
                "same untimed wait over several samples; otherwise the case is inconclusive",
@@ -41,7 +41,7 @@ TECHNIQUE = "exhaustive cut-point fault injection + stack-sampling blocked-forev
 SHARDS = {"quick": 16, "thorough": 16}
 TIMEOUT = {"quick": 500, "thorough": 3400}
 FLOORS = {"partA.cuts": 1500, "partA.reconnect_verified": 1500, "partB.scenarios": 20, "partA.cut_inside_frame": 500, "partA.send_while_link_down": 200,
-          "partB.listener_converses_on_connect_rounds": 16}
+          "partB.listener_converses_on_connect_rounds": 16, "oracle.disable_called_from_message_handler": 16}
 
 NC = "NOT_CONNECTED"
 
@@ -139,6 +139,23 @@ class PartA:
             rig.pipe.feed(prefix[pos:pos + n])
             pos += n
         rig.quiesce(2.0)
+        # ---- in a fifth of the cases the peer stalls first: time passes, every timer the endpoint has armed for this
+        # connection expires (linktest; a T7 / T8 supervision if the tree has one). The endpoint may send what it likes and
+        # may end the connection itself; the close sequence and the reuse below are demanded all the same.
+        if (offset + len(stream)) % 10 == 2:
+            fired = 0
+            for _ in range(2):
+                timers = vtime.pending(owner=rig.protocol)
+                if not timers:
+                    break
+                th = vtime.fire(timers[0])
+                fired += 1
+                if th is not None:
+                    th.join(0.3)     # (a linktest that waits for its answer stays behind as a daemon thread until T6)
+            wit["timers_expired_while_the_peer_stalled"] = fired
+            ctx.count("partA.cases_with_timer_expiry_while_the_peer_stalled")
+            ctx.count("partA.timers_fired_while_the_peer_stalled", fired)
+            rig.quiesce(1.0)
         # ---- follow-up
         if follow in ("peer_close", "close_reconnect"):
             rig.pipe.peer_close()
@@ -1070,7 +1087,126 @@ def _listener_converses_on_connect(ctx, rounds):
                 return
 
 
+def _application_disables_from_its_handler(ctx, rounds):
+    """The application reacts to a message by taking the endpoint off line: disable() is called from within the
+    message_received handler (the thread that delivers messages). The call must return, the state must be NOT CONNECTED, and
+    after enable() the next connection must select and deliver. In-memory connection and real passive TCP endpoint."""
+    from lib.hsmsrig import Rig
+
+    rng = ctx.rng
+    for r in range(rounds):
+        real = r % 2 == 1
+        returned = threading.Event()
+        box = {}
+        wit = {"transport": "tcp (passive)" if real else "in-memory", "scenario": "disable() called from the message_received handler"}
+        if real:
+            port = _free_port(ctx)
+            ep = RealEndpoint(False, port)
+            proto = ep.protocol
+        else:
+            rig = Rig(active=False)
+            proto = rig.protocol
+
+        def handler(data, proto=proto, returned=returned, box=box):
+            if data["message"].header.system != 0x9001:
+                return
+            box["thread"] = threading.current_thread()
+            try:
+                proto.disable()
+            except Exception as exc:  # noqa: BLE001
+                box["exc"] = repr(exc)
+            returned.set()
+        proto.events.message_received += handler
+        sock = None
+        try:
+            if real:
+                proto.enable()
+                end = time.monotonic() + 4
+                while sock is None and time.monotonic() < end:
+                    try:
+                        sock = socket.create_connection(("127.0.0.1", port), timeout=1.0)
+                    except OSError:
+                        time.sleep(0.02)
+                if sock is None:
+                    ctx.unsure(f"application disables from its handler: no connection to the passive endpoint: {wit}")
+                    continue
+                sock.sendall(wire.hsms_control(wire.SELECT_REQ, 0x9000))
+                fr = _recv_frames(sock, lambda f: any(x.stype == wire.SELECT_RSP for x in f))
+                if not any(x.stype == wire.SELECT_RSP for x in fr):
+                    ctx.unsure(f"application disables from its handler: not selected (other scenarios judge that): {wit}")
+                    continue
+                for _ in range(rng.choice([0, 0, 2])):
+                    sock.sendall(wire.hsms_data(10, 3, False, 0x9100 + _, b"\x41\x02ok"))
+                sock.sendall(wire.hsms_data(10, 3, False, 0x9001, b"\x41\x02ok"))
+            else:
+                if not rig.connect_and_select(system=0x9000):
+                    ctx.unsure(f"application disables from its handler: not selected (other scenarios judge that): {wit}")
+                    continue
+                rig.pipe.feed(wire.hsms_data(10, 3, False, 0x9001, b"\x41\x02ok"))
+            ctx.count("oracle.disable_called_from_message_handler")
+            if not returned.wait(8.0):
+                th = box.get("thread")
+                if th is not None and (stuck.blocked_forever([th], watch=0.8, samples=4) or _spinning([th])):
+                    ctx.violation("disable-called-from-message-handler-blocked-forever", {**wit, "stacks": stuck.stacks(8)})
+                else:
+                    ctx.unsure(f"disable() called from the message handler did not return within the watchdog: {wit}")
+                return          # the worker has a wedged endpoint now: later scenarios of this part would be distorted
+            if "exc" in box:
+                ctx.violation("disable-called-from-message-handler-raises", {**wit, "error": box["exc"][:200]})
+                continue
+            end = time.monotonic() + 3
+            while time.monotonic() < end and proto.connection_state.current.name != NC:
+                time.sleep(0.002)
+            if proto.connection_state.current.name != NC:
+                ctx.violation("state-not-NOT_CONNECTED-after-disable-from-message-handler", {**wit, "state": proto.connection_state.current.name})
+                continue
+            # usable again
+            th, ok, b2 = _call(proto.enable, 6.0)
+            if not ok:
+                ctx.violation("enable-after-disable-from-message-handler-blocked-forever" if stuck.blocked_forever([th], watch=0.5)
+                              else "enable-after-disable-from-message-handler-did-not-return", {**wit, "stacks": stuck.stacks(8)})
+                return
+            if real:
+                if sock is not None:
+                    sock.close()
+                sock = None
+                end = time.monotonic() + 4
+                while sock is None and time.monotonic() < end:
+                    try:
+                        sock = socket.create_connection(("127.0.0.1", port), timeout=1.0)
+                    except OSError:
+                        time.sleep(0.02)
+                selected = False
+                if sock is not None:
+                    sock.sendall(wire.hsms_control(wire.SELECT_REQ, 0x9002))
+                    fr = _recv_frames(sock, lambda f: any(x.stype == wire.SELECT_RSP for x in f))
+                    selected = any(x.stype == wire.SELECT_RSP and x.system == 0x9002 for x in fr)
+                    if selected:
+                        sock.sendall(wire.hsms_data(10, 3, False, 0x9003, b"\x41\x02ok"))
+                delivered = lambda: (0x9003, b"\x41\x02ok") in ep.delivered
+            else:
+                selected = rig.connect_and_select(system=0x9002)
+                if selected:
+                    rig.pipe.feed(wire.hsms_data(10, 3, False, 0x9003, b"\x41\x02ok"))
+                delivered = lambda: any(m["system"] == 0x9003 and m["body"] == b"\x41\x02ok" for m in rig.delivered)
+            if not selected:
+                ctx.violation("no-select-after-disable-from-message-handler-and-enable", {**wit, "state": proto.connection_state.current.name})
+                continue
+            end = time.monotonic() + 3
+            while time.monotonic() < end and not delivered():
+                time.sleep(0.002)
+            if not delivered():
+                ctx.violation("no-delivery-after-disable-from-message-handler-and-enable", wit)
+        finally:
+            if sock is not None:
+                sock.close()
+            _call(proto.disable, 5.0)
+            for t in vtime.pending(owner=proto):
+                t.cancel()
+
+
 def part_b(ctx, n):
+    _application_disables_from_its_handler(ctx, 2 if ctx.quick else 20)
     _listener_converses_on_connect(ctx, 2 if ctx.quick else 12)
     if ctx.shard < 4:
         _forced_disable_race(ctx, active=ctx.shard % 2 == 0)
